@@ -42,6 +42,8 @@ def gen_cases(rng, n):
         if form == "editor" and i % 7 == 0:
             opts["uprp_prefilled"] = True
         opts.update([{}, {"interior_ids": 1.0}, {"header_ptr": True}, {"interior_ids": 1.0, "header_ptr": True}, {}][i % 5])
+        if i % 4 == 1:
+            opts["degenerate_locs"] = True
         cases.append((f"gen:{form}:{i}", SC.MapGen(rng, form, **opts).build(), form))
     return cases
 
